@@ -782,11 +782,58 @@ func genReceiver(prop string) func(tier string, seed uint64, idx int) interface{
 			}
 		}
 		// release what is still open in most runs (oldest first)
+		released := true
 		for _, id := range order {
 			if !r.Bool(3, 4) {
+				released = false
 				break
 			}
 			cl.Ops = append(cl.Ops, Op{K: "pubrel", PID: id})
+		}
+		if released && r.Bool(1, 4) {
+			// pipelined QoS 2: a few complete exchanges, then more PUBLISH
+			// packets in flight than the 16 slots of the receiver's queue,
+			// released in order
+			next := uint16(20000 + r.Intn(20000))
+			for i := 1 + r.Intn(6); i > 0; i-- {
+				x.seq[1]++
+				next++
+				cl.Ops = append(cl.Ops, Op{K: "pub", Topic: x.topic(), QoS: 2, PID: next, Size: 8 + r.Intn(60), Seq: x.seq[1]})
+			}
+			var ids []uint16
+			for i := 17 + r.Intn(10); i > 0; i-- {
+				x.seq[1]++
+				next++
+				ids = append(ids, next)
+				cl.Ops = append(cl.Ops, Op{K: "pub", Topic: x.topic(), QoS: 2, PID: next, Size: 8 + r.Intn(60), Seq: x.seq[1], NoRel: true, NoWait: r.Bool(1, 2)})
+			}
+			// release a prefix, make sure it has been dealt with, and in half of
+			// the runs release the rest afterwards
+			cut := r.Intn(len(ids) + 1)
+			for _, id := range ids[:cut] {
+				cl.Ops = append(cl.Ops, Op{K: "pubrel", PID: id, NoWait: r.Bool(1, 3)})
+			}
+			cl.Ops = append(cl.Ops, Op{K: "ping"})
+			if r.Bool(1, 2) {
+				for _, id := range ids[cut:] {
+					cl.Ops = append(cl.Ops, Op{K: "pubrel", PID: id, NoWait: r.Bool(1, 3)})
+				}
+			}
+		}
+		if released && r.Bool(1, 4) {
+			// a burst written in one go, then FIN while still reading: what the
+			// broker has received it must still answer and hand on
+			for i := 3 + r.Intn(12); i > 0; i-- {
+				x.seq[1]++
+				op := Op{K: "pub", Topic: x.topic(), QoS: byte(r.Intn(2)), Size: 8 + r.Intn(300), Seq: x.seq[1], NoWait: true}
+				if op.QoS > 0 {
+					op.PID = uint16(50000 + x.seq[1])
+				}
+				cl.Ops = append(cl.Ops, op)
+			}
+			cl.Ops = append(cl.Ops, Op{K: "shutwr"}, Op{K: "waitdead"}, Op{K: "barrier"})
+			x.sc.Clients = append(x.sc.Clients, cl)
+			return x.sc
 		}
 		cl.Ops = append(cl.Ops, Op{K: "ping"}, Op{K: "barrier"})
 		x.sc.Clients = append(x.sc.Clients, cl)
